@@ -221,9 +221,9 @@ CHECKS["C20"] = mk_sched("C20", "custom factory: once per name, serially, on the
     ["C13:H1:preemptions=1", "C13:H2", "C13:H4", "C13:H5", "C13:H8-AABX:coarse"])
 
 CHECKS["C14"] = mk_simple("C14", "hidden_state", "results never depend on call history",
-    "hint part: for every corpus zone (598 shipped + synthetic family) the hidden state (local_time_hint_, time_local_hint_) is read from and forced into the live object; reachable values are established by applying every probe as a real API call from the fresh state; then for EVERY index value 0..n+1 per direction (full product of both for tables of at most 40 entries, plus a diagonal) the whole probe panel (lookup(tp)/lookup(cs) at both ends and middle of every table interval, inside every gap and overlap; next_transition and prev_transition on both sides of every table entry; format and parse at every 4th entry; far-future and extreme arguments) is evaluated and compared with the fresh-state answer (quick tier, tables of more than 64 entries: per state the probes of the intervals within +-3 of the hint their own code path consults and +-1 of the other hint, a fixed spread of ~40 probes over the table and all global probes; complete panel for every 25th zone, for small tables and in the thorough tier); plus real two-call sequences over neighbouring intervals. cache part: ALL load sequences of length <= 4 (5) over {A, A2 (same bytes), B, file:B (different bytes), X (unserved), a canonical and a non-canonical fixed name, an out-of-range fixed-shaped name, UTC, BAD (served but rejected)} from an emptied cache with a counting data source. text part: every ordered pair (thorough: triple) of format()/parse() calls over a 16-call alphabet (short and long C-library runs, runs beyond the 16x growth limit, library-rendered specifiers, week dates, %s, an invalid date), each sequence in a fresh child process, last answer compared with the answer of a process that makes that call first",
+    "hint part: for every corpus zone (598 shipped + synthetic family) the hidden state (local_time_hint_, time_local_hint_) is read from and forced into the live object; reachable values are established by applying every probe as a real API call from the fresh state; then for EVERY index value 0..n+1 per direction (full product of both for tables of at most 40 entries, plus a diagonal) the whole probe panel (lookup(tp)/lookup(cs) at both ends and middle of every table interval, inside every gap and overlap; next_transition and prev_transition on both sides of every table entry; format and parse at every 4th entry; far-future and extreme arguments) is evaluated and compared with the fresh-state answer (quick tier, tables of more than 64 entries: per state the probes of the intervals within +-3 of the hint their own code path consults and +-1 of the other hint, a fixed spread of ~40 probes over the table and all global probes; complete panel for every 25th zone, for small tables and in the thorough tier); plus real two-call sequences over neighbouring intervals. cache part: ALL load sequences of length <= 4 (5) over {A, A2 (same bytes), B, file:B (different bytes), X (unserved), a canonical and a non-canonical fixed name, an out-of-range fixed-shaped name, UTC, BAD (served but rejected)} from an emptied cache with a counting data source, plus one long history (2000 failing + 2000 valid + 2000 out-of-range fixed-shaped names loaded once, then reloaded in both orders: no second consultation, same identities). text part: every ordered pair (thorough: triple) of format()/parse() calls over a 16-call alphabet (short and long C-library runs, runs beyond the 16x growth limit, library-rendered specifiers, week dates, %s, an invalid date), each sequence in a fresh child process, last answer compared with the answer of a process that makes that call first",
     "Explicit-state exploration of the real objects: states = hint pairs / cache contents, transitions = public API calls; in every state every probe must answer as a freshly loaded zone does; reloads return the first identity without consulting the data source; failures stay failures with UTC.",
-    ["C14:hints:full-product", "C14:hints:per-direction", "C14:hints:table-size-big", "C14:cache:len4", "C14:text:len2"],
+    ["C14:hints:full-product", "C14:hints:per-direction", "C14:hints:table-size-big", "C14:cache:len4", "C14:cache:long-history", "C14:text:len2"],
     "Trusted base: private members are read/forced via -fno-access-control on the harness TU only; the fresh-state answers themselves are checked against the reference model by C01/C02. Forcing a hint value is the same state an API call leaves (asserted per zone by reading the members after real calls).",
     engine="E2", min_eval=1000000,
     technique="explicit-state model checking on the implementation: exhaustive enumeration of the hidden-state space (hint indices x probe panel; name-cache contents x load sequences) with a differential oracle against the fresh state")
